@@ -124,6 +124,11 @@ func (p *parser) BasicParser(urlOrRef string, baseUrl *Url, url *Url, stateOverr
 	}
 	url.parser = p
 
+	// Decode before removing tab and newline: removing them from the raw bytes first can join the
+	// two halves of a split multi-byte sequence into a code point the input never contained.
+	if !p.opts.acceptInvalidCodepoints && !utf8.ValidString(url.inputUrl) {
+		url.inputUrl = string([]rune(url.inputUrl))
+	}
 	if i, changed := remove(url.inputUrl, ASCIITabOrNewline); changed {
 		if err := p.handleError(url, errors.InvalidURLUnit, false); err != nil {
 			return nil, err
